@@ -173,7 +173,7 @@ impl Property for ScenarioProp {
         if !still_fails(&sc, &class, &opts) {
             return found.clone(); // not reproducible in this process: leave as is
         }
-        let mut budget = 400;
+        let mut budget: i64 = 600;
         // 1. drop whole clients
         let mut changed = true;
         while changed && budget > 0 {
@@ -216,7 +216,7 @@ impl Property for ScenarioProp {
         for ci in 0..sc.clients.len() {
             for oi in 0..sc.clients[ci].ops.len() {
                 while let Op::Repeat { op, n } = sc.clients[ci].ops[oi].clone() {
-                    if n <= 1 || budget == 0 {
+                    if n <= 1 || budget <= 0 {
                         break;
                     }
                     let mut c = sc.clone();
@@ -240,6 +240,45 @@ impl Property for ScenarioProp {
                     sc = c;
                 }
             }
+            if sc.clients[ci].plan.every > 0 && budget > 0 {
+                // dense mode is needed: make the offered change points explicit
+                // (from the schedule log of the failing run) so they can be shrunk
+                let rep = run_scenario(&sc, &opts);
+                let mut pts: Vec<u64> =
+                    rep.sched.log.iter().filter(|(t, _, _)| *t as usize == ci).map(|(_, e, _)| *e).collect();
+                pts.sort_unstable();
+                pts.dedup();
+                let mut c = sc.clone();
+                c.clients[ci].plan.every = 0;
+                c.clients[ci].plan.points = pts;
+                budget -= 1;
+                if still_fails(&c, &class, &opts) {
+                    sc = c;
+                }
+            }
+            // halves first, then single points
+            let mut chunk = sc.clients[ci].plan.points.len() / 2;
+            while chunk >= 2 && budget > 0 {
+                let mut start = 0;
+                let mut removed_any = false;
+                while start < sc.clients[ci].plan.points.len() && budget > 0 {
+                    let mut c = sc.clone();
+                    let end = (start + chunk).min(c.clients[ci].plan.points.len());
+                    c.clients[ci].plan.points.drain(start..end);
+                    budget -= 1;
+                    if still_fails(&c, &class, &opts) {
+                        sc = c;
+                        removed_any = true;
+                    } else {
+                        start += chunk;
+                    }
+                }
+                if !removed_any {
+                    chunk /= 2;
+                } else {
+                    chunk = chunk.min(sc.clients[ci].plan.points.len() / 2);
+                }
+            }
             let mut i = 0;
             while i < sc.clients[ci].plan.points.len() && budget > 0 {
                 let mut c = sc.clone();
@@ -255,7 +294,7 @@ impl Property for ScenarioProp {
         // 5. settings to defaults, plain read behaviour
         for ci in 0..sc.clients.len() {
             for oi in 0..sc.clients[ci].ops.len() {
-                if budget == 0 {
+                if budget <= 0 {
                     break;
                 }
                 let mut c = sc.clone();
@@ -313,7 +352,26 @@ impl Property for ScenarioProp {
             Some(v) => Found {
                 class,
                 key: key_of(&sc, &v),
-                detail: serde_json::to_value(&v).unwrap(),
+                detail: {
+                    let mut d = serde_json::to_value(&v).unwrap();
+                    // localise: first seam event at which the failing operation departs
+                    // from its isolated reference execution (information only)
+                    let o2 = RunOpts { trace_op: Some((v.client, v.op)), ..RunOpts::default() };
+                    if let Some((rt, t)) = run_scenario(&sc, &o2).traces {
+                        let n = rt.len().min(t.len());
+                        let i = (0..n).find(|&i| {
+                            let (a, b) = (&rt[i], &t[i]);
+                            a.kind != b.kind || a.a != b.a || a.b != b.b || a.r != b.r
+                        });
+                        let ev = |e: &crate::ctx::Ev| json!({"kind": crate::ctx::kind::name(e.kind),
+                            "a": format!("{:?}", f64::from_bits(e.a)), "b": format!("{:?}", f64::from_bits(e.b)), "result": format!("{:?}", f64::from_bits(e.r))});
+                        d["first_divergent_seam_event"] = match i {
+                            Some(i) => json!({"index": i, "reference": ev(&rt[i]), "run": ev(&t[i])}),
+                            None => json!({"note": "traces agree on their common prefix", "reference_events": rt.len(), "run_events": t.len()}),
+                        };
+                    }
+                    d
+                },
                 case: json!({"kind": "scenario", "scenario": sc, "schedule": rep.sched.log.iter().take(64).collect::<Vec<_>>() }),
             },
             None => found.clone(),
